@@ -90,6 +90,9 @@ class HierDictDocument(DictDocument):
 
             class_name = self.get_class_name(body_class)
             if self.ignore_wrappers:
+                if isinstance(class_name, bytes) and not (class_name in doc):
+                    # binary protocols may spell the key as text as well
+                    class_name = class_name.decode('utf8')
                 doc = doc.get(class_name, None)
 
             if doc is None:
